@@ -60,9 +60,10 @@ func (srv *Server) Serve(listen chan error) error {
 	}
 	srv.logger.Debug("Unix socket is listening", "addr", srv.addr)
 
+	// Closing the listener also unlinks the socket file. Removing the path once
+	// more here could delete the socket of the next run of the same DAG.
 	defer func() {
 		_ = srv.Shutdown()
-		_ = os.Remove(srv.addr)
 	}()
 	for {
 		conn, err := srv.listener.Accept()
